@@ -455,3 +455,11 @@ def run(ctx: Ctx, rep: Report, tier: str):
     rep.rule("C12.Y5b", "the component-boundary test of is_subpath is positioned with the length of the normalised folder (C13.Z8): a root configured as `/local/` "
              "neither rejects its own content nor admits `/locals/...`", 2)
     subpath_lengths_are_normalised(ctx, rep, "C12.Y5b")
+    from rules.common import refresh_marks_changed
+    rep.rule("C12.Y10", "an object that left the root is noticed even before its event arrives: a refresh that discovers a new path marks the side changed (C14.W7), so a "
+             "concurrent delete on the other side does not delete the moved-out object by its id", 2)
+    refresh_marks_changed(ctx, rep, "C12.Y10")
+    from rules.C20 import C20 as _C20
+    from rules.common import alias as _alias12
+    _alias12(rep, ["C20.S4"], "C12.Y11", "un-request pushes a pending local MOVE as well as a pending edit before it deletes the local copy (C20.S4): an object moved out of the "
+             "root is not deleted through its refreshed path", 1, lambda: _C20(ctx, rep).s4(), keep=lambda i: i.key == "_smart_unsync_ent|push")
